@@ -340,6 +340,27 @@ def run_svm(inp, timeout=1200):
     return p.stdout.decode('latin1').split('\n')
 
 
+def run_svm_sharded(lines, shards=14, timeout=6000):
+    """Run one-line-in / one-line-out model commands on several runner processes (longest commands first, round robin);
+    the answers come back in the order of `lines`."""
+    from concurrent.futures import ThreadPoolExecutor
+    if not lines:
+        return []
+    order = sorted(range(len(lines)), key=lambda k: -len(lines[k]))
+    shards = max(1, min(shards, len(lines)))
+    parts = [order[k::shards] for k in range(shards)]
+
+    def one(idx):
+        out = run_svm('\n'.join(lines[k] for k in idx) + '\n', timeout=timeout)
+        return idx, out
+    res = [None] * len(lines)
+    with ThreadPoolExecutor(max_workers=shards) as ex:
+        for idx, out in ex.map(one, parts):
+            for k, o in zip(idx, out):
+                res[k] = o
+    return res
+
+
 # ---------------------------------------------------------------------------------------------
 # reporting
 def seed_for(prop, seed):
